@@ -15,6 +15,10 @@ GROUPS = [
     dict(name='stack_lifo_flush', tu='stack.c', harness='h_lifo_flush', mode='H', functions=['mpmc_stack_lifo_flush'], defs=['-DVERIF_LOOP_FLAG'], unwind=2, exact_unwind=True),
     dict(name='stack_reverse_le4', tu='stack.c', harness='h_reverse', mode='H', functions=['mpmc_stack_reverse'], defs=['-DVERIF_LOOP_FLAG'], unwind=6, bounded=True, bound='lists of <= 4 nodes'),
     dict(name='distfifo_trypop', tu='distfifo.c', harness='h_trypop', mode='H', functions=['dist_fifo_trypop'], unwind=4, exact_unwind=True),
+    dict(name='lifo_init', tu='lifo.c', harness='h_init', mode='H', defs=['-DVERIF_LOOP_FLAG'], functions=['mpmc_lifo_init'], unwind=2, exact_unwind=True),
+    dict(name='msig_init', tu='multisignal.c', harness='h_init', mode='H', defs=['-DVERIF_LOOP_FLAG'], functions=['fiber_multi_signal_init'], unwind=2, exact_unwind=True),
+    dict(name='stack_init', tu='stack.c', harness='h_init', mode='H', defs=['-DVERIF_LOOP_FLAG'], functions=['mpmc_stack_init'], unwind=2, exact_unwind=True),
+    dict(name='distfifo_init', tu='distfifo.c', harness='h_init', mode='H', functions=['dist_fifo_init'], unwind=2, exact_unwind=True),
     dict(name='distfifo_push', tu='distfifo.c', harness='h_push', mode='H', functions=['dist_fifo_push'], unwind=4, exact_unwind=True),
 ]
 TRUSTED = ['compare_and_swap2 (inline asm lock cmpxchg16b): TRUSTED contract = strong 128-bit CAS (spec/C20/cas2.h); its asm body is replaced by the contract call in the verification copy of machine_specific.h']
